@@ -57,6 +57,10 @@ def lean_stage(prop: str, extra_modules=()):
     res = {"obligations": 0, "discharged": 0, "failures": [], "theorems": [], "axioms": {}}
     if not props_file.exists():
         raise Infra(f"{props_file} missing")
+    # a property's theorems may be spread over TE/Props/Cxx.lean and TE/Props/Cxx_*.lean
+    part_files = sorted((LEAN / "TE" / "Props").glob(f"{prop}_*.lean"))
+    part_mods = [f"TE.Props.{f.stem}" for f in part_files]
+    extra_modules = tuple(extra_modules) + tuple(part_mods)
     lk = _lock()
     try:
         t0 = time.time()
@@ -73,29 +77,34 @@ def lean_stage(prop: str, extra_modules=()):
                 raise Infra("tedriver does not build and no earlier binary exists: " + res["driver_build"][:300])
         res["build_s"] = round(time.time() - t0, 2)
         files = module_files(mod)
+        for pm in part_mods:
+            for f in module_files(pm):
+                if f not in files:
+                    files.append(f)
         for f in files:
             for ln, l in enumerate(strip_comments(f.read_text()).split("\n"), 1):
                 if FORBIDDEN.search(l):
                     res["failures"].append(f"forbidden construct in {f.relative_to(LEAN)}:{ln}: {l.strip()[:80]}")
         # obligations: every theorem of the Props file (+ Gen obligations it re-exports)
-        src = strip_comments(props_file.read_text())
-        ns = None
         names = []
-        for l in src.split("\n"):
-            m = re.match(r"^namespace (\S+)", l)
-            if m:
-                ns = m.group(1)
-            if re.match(r"^end (\S+)", l):
-                ns = None
-            m = re.match(r"^(?:private |protected )?theorem (\S+)", l)
-            if m:
-                names.append((ns + "." if ns else "") + m.group(1))
+        for pf in [props_file, *part_files]:
+            src = strip_comments(pf.read_text())
+            ns = None
+            for l in src.split("\n"):
+                m = re.match(r"^namespace (\S+)", l)
+                if m:
+                    ns = m.group(1)
+                if re.match(r"^end (\S+)", l):
+                    ns = None
+                m = re.match(r"^(?:private |protected )?theorem (\S+)", l)
+                if m:
+                    names.append((ns + "." if ns else "") + m.group(1))
         res["obligations"] = len(names)
         res["theorems"] = names
         if rc == 0 and names:
             audit = LEAN / "TE" / "Audit" / f"{prop}.lean"
             audit.parent.mkdir(exist_ok=True)
-            audit.write_text(f"import {mod}\n" + "\n".join(f"#print axioms {n}" for n in names) + "\n")
+            audit.write_text("".join(f"import {m_}\n" for m_ in [mod, *part_mods]) + "\n".join(f"#print axioms {n}" for n in names) + "\n")
             rc2, out2 = sh(["lake", "env", "lean", str(audit)], cwd=LEAN)
             cur = None
             ax: dict[str, set] = {}
